@@ -5,8 +5,11 @@
    (Executer.processValidated) is the oracle [valid c b]: block b is accepted on top of chain c.  Block deletion
    (Executer.deleteBlock -> Chain.RemoveBlock(saveTemp)) removes the tip and, with saveTemp, stores it in the
    temp table KEYED BY HEIGHT (dbPrefixTemp ++ height); it refuses heights at or below the finalized height.
-   The peer is an input: the ID it answers to getHighestCommonBlock and the blocks the downloader obtained
-   (already through the stateless Validate), an honest peer being the handler model of Sync.Handlers. *)
+   Re-applying a temp block (processor with removeTemp) removes its temp entry.
+   The peer is an input: the ID it answers to getHighestCommonBlock, the blocks the downloader delivered that
+   passed the stateless Validate, and how the stream ended (target reached / request error / a block failing
+   Validate).  An honest peer is the handler model of Sync.Handlers.  The correspondence harness runs the real
+   Syncer of one node against a scripted peer over loopback libp2p and compares with these functions. *)
 From Coq Require Import List NArith Bool Arith.
 Import ListNotations.
 
@@ -18,6 +21,9 @@ Record node := {
   finalized : nat;            (* finalized height *)
   banned : bool               (* the sync peer has been banned *)
 }.
+
+Inductive ending := EndOk | EndErr | EndInvalid.
+Inductive outcome := Synced | Aborted | Failed.
 
 Section Sync.
   Variable valid : list id -> id -> bool.
@@ -32,31 +38,36 @@ Section Sync.
   Fixpoint lookup (h : nat) (t : list (nat * id)) : option id :=
     match t with [] => None | (k, v) :: r => if Nat.eqb k h then Some v else lookup h r end.
 
-  (* blocks saved while deleting down to height hc: heights hc+1 .. tip, each bound to the deleted ID *)
+  Definition unbind (h : nat) (t : list (nat * id)) : list (nat * id) :=
+    filter (fun kv => negb (Nat.eqb (fst kv) h)) t.
+
+  (* blocks saved while deleting: heights h, h+1, ... each bound to the deleted ID *)
   Fixpoint save_from (h : nat) (bs : list id) (t : list (nat * id)) : list (nat * id) :=
     match bs with [] => t | b :: r => save_from (S h) r ((h, b) :: t) end.
 
-  (* deleteTillCommonBlock(common at height hc) with the reverter's saveTemp flag; None = the reverter refused
-     (a height at or below the finalized one would have to go) *)
-  Definition delete_till (n : node) (hc : nat) (save : bool) : option node :=
-    if finalized n <=? hc then
-      Some {| chain := firstn (S hc) (chain n);
-              temp := if save then save_from (S hc) (skipn (S hc) (chain n)) (temp n) else temp n;
-              finalized := finalized n; banned := banned n |}
-    else None.
+  (* deleteTillCommonBlock(common at height hc) with the reverter's saveTemp flag.  The reverter refuses heights
+     at or below the finalized one: the loop then stops with an error, the blocks above the finalized height
+     being already deleted.  Result: node and "no error" *)
+  Definition delete_till (n : node) (hc : nat) (save : bool) : node * bool :=
+    let stop := Nat.max hc (finalized n) in
+    ({| chain := firstn (S stop) (chain n);
+        temp := if save then save_from (S stop) (skipn (S stop) (chain n)) (temp n) else temp n;
+        finalized := finalized n; banned := banned n |},
+     finalized n <=? hc).
 
-  (* GetTempBlocks sorted by height ascending; the temp table holds consecutive heights from hc+1 upwards
-     (it is cleared at the end of every sync) *)
-  Fixpoint temp_from (t : list (nat * id)) (h : nat) (fuel : nat) : list id :=
+  (* restoreBlocks: GetTempBlocks sorted by height ascending, each re-applied with removeTemp; the temp table
+     holds consecutive heights from hc+1 upwards (it is cleared at the end of every successful sync) *)
+  Fixpoint restore_apply (c : list id) (t : list (nat * id)) (h : nat) (fuel : nat) : list id * list (nat * id) * bool :=
     match fuel with
-    | O => []
-    | S k => match lookup h t with Some b => b :: temp_from t (S h) k | None => [] end
+    | O => (c, t, true)
+    | S k => match lookup h t with
+             | None => (c, t, true)
+             | Some b => if valid c b then restore_apply (c ++ [b]) (unbind h t) (S h) k else (c, t, false)
+             end
     end.
 
   Fixpoint index_of (x : id) (l : list id) : option nat :=
     match l with [] => None | a :: r => if N.eqb a x then Some O else option_map S (index_of x r) end.
-
-  Inductive outcome := Synced | Aborted | Failed.
 
   Definition ban (n : node) : node :=
     {| chain := chain n; temp := temp n; finalized := finalized n; banned := true |}.
@@ -64,11 +75,14 @@ Section Sync.
     {| chain := chain n; temp := []; finalized := finalized n; banned := banned n |}.
   Definition with_chain (n : node) (c : list id) : node :=
     {| chain := c; temp := temp n; finalized := finalized n; banned := banned n |}.
+  Definition with_chain_temp (n : node) (c : list id) (t : list (nat * id)) : node :=
+    {| chain := c; temp := t; finalized := finalized n; banned := banned n |}.
 
-  (* fastSyncer.Sync.  [common]: the peer's getHighestCommonBlock answer; [blocks]: what the downloader delivered;
-     [target_height]: height of the received block that triggered the sync; [rounds2]: 2 * number of validators.
-     [restore_saves]: the saveTemp flag with which restoreBlocks deletes (true originally, false in the repaired code) *)
-  Definition fast_sync (restore_saves : bool) (n : node) (common : option id) (blocks : list id)
+  (* fastSyncer.Sync.  [common]: the peer's getHighestCommonBlock answer; [blocks],[e]: what the downloader delivered
+     and how the stream ended; [target_height]: height of the received block that triggered the sync;
+     [rounds2]: 2 * number of validators.  [restore_saves]: the saveTemp flag with which restoreBlocks deletes
+     (true originally, false in the repaired code) *)
+  Definition fast_sync (restore_saves : bool) (n : node) (common : option id) (blocks : list id) (e : ending)
              (target_height rounds2 : nat) : node * outcome :=
     match common with
     | None => (ban n, Failed)                                   (* errCommonBlockNotFound: ban *)
@@ -79,40 +93,43 @@ Section Sync.
             if hc <? finalized n then (ban n, Failed)
             else if (rounds2 <? (length (chain n) - 1) - hc) || (rounds2 <? target_height - hc) then (n, Aborted)
             else
-              match delete_till n hc true with
-              | None => (n, Failed)
-              | Some n1 =>
+              match e with
+              | EndErr => (n, Failed)                           (* download error: nothing touched *)
+              | EndInvalid => (ban n, Failed)                   (* a block fails Validate: ban, nothing touched *)
+              | EndOk =>
+                  let '(n1, ok1) := delete_till n hc true in
+                  if negb ok1 then (n1, Failed) else
                   let '(c2, ok) := apply_all (chain n1) blocks in
                   if ok then (clear_temp (with_chain n1 c2), Synced)
                   else
                     (* restoreBlocks: delete the applied blocks again, then re-apply the temp blocks *)
-                    match delete_till (with_chain n1 c2) hc restore_saves with
-                    | None => (with_chain n1 c2, Failed)
-                    | Some n3 =>
-                        let saved := temp_from (temp n3) (S hc) (length (temp n3)) in
-                        let '(c4, ok') := apply_all (chain n3) saved in
-                        if ok' then (ban (with_chain n3 c4), Failed) else (with_chain n3 c4, Failed)
-                    end
+                    let '(n3, ok3) := delete_till (with_chain n1 c2) hc restore_saves in
+                    if negb ok3 then (n3, Failed) else
+                    let '(c4, t4, ok') := restore_apply (chain n3) (temp n3) (S hc) (length (temp n3)) in
+                    if ok' then (ban (with_chain_temp n3 c4 t4), Failed) else (with_chain_temp n3 c4 t4, Failed)
               end
         end
     end.
 
   (* blockSyncer.Sync after the best peer and its last block are known: the common block comes from the peer's
-     answer to the IDs offered (heights from getHeightWithGap, all >= finalized), then delete, then stream and
-     apply; nothing is restored on failure *)
-  Definition block_sync (n : node) (common : option id) (blocks : list id) : node * outcome :=
+     answer to the IDs offered, then delete, then stream and apply; nothing is restored on failure *)
+  Definition block_sync (n : node) (common : option id) (blocks : list id) (e : ending) : node * outcome :=
     match common with
     | None => (n, Failed)
     | Some cid =>
         match index_of cid (chain n) with
         | None => (n, Failed)
         | Some hc =>
-            match delete_till n hc true with
-            | None => (n, Failed)
-            | Some n1 =>
-                let '(c2, ok) := apply_all (chain n1) blocks in
-                if ok then (clear_temp (with_chain n1 c2), Synced) else (with_chain n1 c2, Failed)
-            end
+            let '(n1, ok1) := delete_till n hc true in
+            if negb ok1 then (n1, Failed) else
+            let '(c2, ok) := apply_all (chain n1) blocks in
+            if ok then
+              match e with
+              | EndOk => (clear_temp (with_chain n1 c2), Synced)
+              | EndErr => (with_chain n1 c2, Failed)
+              | EndInvalid => (ban (with_chain n1 c2), Failed)
+              end
+            else (with_chain n1 c2, Failed)
         end
     end.
 
